@@ -58,6 +58,11 @@ KEYS = ["a", "b", "q", " ", "\n", "\t", "\x7f", "\x03", "\x1b[A", "\x1b[B", "\x1
         "\x1b[1;5C", "\x1b[3~", "\x1bb", "\x1b[200~", "é", "λ", "Ж", "│", "\U0001f600"]
 
 
+# "reads that fail with OSError any number of times": any OSError - other errnos, subclasses, none at all
+_ERROR_KINDS = (["EIO"], ["EIO", "EAGAIN", "EINTR"], ["EAGAIN"], ["EINTR", "EIO"], ["ENXIO", "EIO"], ["ETIMEDOUT"],
+                ["bare", "EIO", "ENXIO"])
+
+
 def _gen_extra(rng, enc, long_ok=True):
     k = rng.random()
     if k < 0.2:
@@ -123,8 +128,23 @@ def gen_plan(seed, tier, index=0, avoid=()):
     if rng.random() < 0.5:
         cfg = {"h": h, "w": w, "encoding": enc, "callback": rng.random() < 0.75, "start_row": rng.randrange(h),
                "out_buffer": rng.choice(("none", "line", "block", "block")),
-               "error_kinds": rng.choice((["EIO"], ["EIO", "EAGAIN", "EINTR"], ["EAGAIN"], ["EINTR", "EIO"]))}
+               "error_kinds": rng.choice(_ERROR_KINDS)}
         steps = [_gen_query(rng, enc) for _ in range(rng.choice((1, 1, 2, 3)))]
+        if rng.random() < 0.004:
+            # more than a kilobyte typed ahead of the report (a paste under way).  One query, executed once without
+            # the fault variants: the library re-runs its regex over everything read so far after every character,
+            # which costs seconds here (DESIGN 12.6)
+            st = steps[0]
+            tail = st["extra"]
+            body = ""
+            want = rng.choice((1030, 1100, 1300))
+            while len(body) + len(tail) < want:
+                body += rng.choice(("abc", "\x1b[A", "x", " ", "\n", "42", ";", "def ", "q"))
+            if not REPORT_RE.search(body + tail):
+                st["extra"] = body + tail
+                st["split"] = rng.choice((0, len(st["extra"]), rng.randint(0, len(st["extra"]))))
+                st["read_errors"] = {}
+                return {"prop": PROP, "seed": seed, "mode": "A", "cfg": cfg, "steps": [st], "enumerate": False, "huge": True}
         return {"prop": PROP, "seed": seed, "mode": "A", "cfg": cfg, "steps": steps, "enumerate": True}
     # ---- part B
     h = rng.randint(2, 8) if rng.random() < 0.85 else 1
@@ -132,7 +152,9 @@ def gen_plan(seed, tier, index=0, avoid=()):
     # must stay usable: later queries still account for every movement
     cfg = {"h": h, "w": w, "encoding": enc, "callback": rng.random() < 0.8, "start_row": rng.randrange(h),
            "out_buffer": rng.choice(("none", "line", "block", "block")),
-           "error_kinds": rng.choice((["EIO"], ["EIO", "EAGAIN", "EINTR"], ["EAGAIN"], ["EINTR", "EIO"]))}
+           "error_kinds": rng.choice(_ERROR_KINDS)}
+    cfg["hide_cursor"] = rng.random() < 0.75
+    cfg["keep_last_line"] = rng.random() < 0.3
     maxsteps = 25 if tier == "thorough" else 14
     nsteps = rng.choice((2, 3, 4, 6, rng.randint(2, maxsteps)))
     steps = []
@@ -149,7 +171,7 @@ def gen_plan(seed, tier, index=0, avoid=()):
             d = rng.choice((1, -1, 2, -2, rng.randint(-h - 2, h + 2)))
             steps.append({"op": "move", "d": d})
         else:
-            st = {"op": "diff", "noise": "", "read_errors": {}, "nested": []}
+            st = {"op": "diff", "noise": "", "read_errors": {}, "nested": [], "c1": rng.random() < 0.2}
             if rng.random() < 0.25:
                 st["noise"] = _gen_extra(rng, enc)[:8]
             if rng.random() < 0.2:
@@ -575,7 +597,8 @@ def _exec_b(p, s, res):
     if cfg["start_row"]:
         term.feed("\x1b[%d;1H" % (cfg["start_row"] + 1))
     got_extra = []
-    win = CursorAwareWindow(out_stream=s.out, in_stream=s.inp,
+    win = CursorAwareWindow(out_stream=s.out, in_stream=s.inp, hide_cursor=cfg.get("hide_cursor", True),
+                            keep_last_line=cfg.get("keep_last_line", False),
                             extra_bytes_callback=(lambda b: got_extra.append(b)) if cfg["callback"] else None)
     if not _enter(win, res):
         return
@@ -624,6 +647,9 @@ def _exec_b(p, s, res):
             else:
                 del got_extra[:]
                 del nested_returns[:]
+                term.c1_reply = bool(st.get("c1"))       # the terminal answers with the 8-bit CSI
+                if st.get("c1"):
+                    world.probe("c1_csi")
                 noise_b = st["noise"].encode(enc)
                 if noise_b:
                     kernel.arrive(s.fd, noise_b)
@@ -689,8 +715,23 @@ def _exec_b(p, s, res):
                         # the query did not complete.
                         world.probe("no_callback_valueerror")
                         world.log.add("diff_valueerror", si)
-                        # the failed query may or may not have recorded the row it saw: either base is fine
-                        base_alt = s.term.last_dsr[0] if s.term.last_dsr else None
+                        # What the failed call did to top_usable_row decides what is still to be accounted for:
+                        # nothing (the next call measures from the old base row), or the whole movement it saw (the
+                        # next call measures from the row it saw).  Anything in between - a clamp was hit and the
+                        # part it would have returned went down with the exception, or nested calls were involved -
+                        # cannot be judged: either base is accepted then.
+                        seen = s.term.last_dsr[0] if s.term.last_dsr else None
+                        dfail = win.top_usable_row - top0
+                        world.log.add("failed_query_changed_top_by", dfail, seen, base)
+                        if base is None or seen is None or nested_returns:
+                            base_alt = seen
+                        elif dfail == 0:
+                            base_alt = None
+                        elif dfail == seen - base:
+                            base, base_alt = seen, None
+                            world.probe("failed_query_accounted_fully")
+                        else:
+                            base_alt = seen
                         res["reads_per_step"][si] = s.inp.nreads
                         del s.tty.inq[:]
                         continue
